@@ -77,6 +77,19 @@ def check_one(rec, model, Sid, s, rng, forced=False):
             rec.count("query_rt")
             forms.append(("query", lambda: Sid(query=x.as_query())))
             forms.append(("query?", lambda: Sid("?" + x.as_query())))
+    if not forced:
+        # the caller's dictionary (already in template order, as returned by .fields) must not be kept by the Sid
+        d = dict(fields)
+        try:
+            y = Sid(fields=d)
+            for k in list(d):
+                d[k] = "CHANGED-BY-CALLER"
+            d["extra"] = "x"
+            rec.count("form:fields_then_caller_mutates")
+            if not same(x, y):
+                rec.violation("form_differs:fields_then_caller_mutates", case, "x=%r y=%r y.fields=%r" % (x.uri, y.uri, y.fields))
+        except Exception as e:
+            rec.violation("form_raised:fields_then_caller_mutates", case, repr(e))
     for name, fn in forms:
         rec.count("form:" + name)
         try:
